@@ -61,7 +61,7 @@ def variant_in_hash_position(t, need_hash=False):
     return any(variant_in_hash_position(s, need_hash) for s in subs)
 
 
-STRINGS = ["", "a", "hello", "é", "名前", "x\x00y", "a<b>,c", "\U0001F600", "ß" * 3, "tab\t"]
+STRINGS = ["", "a", "hello", "é", "名前", "x\x00y", "a<b>,c", "\U0001F600", "ß" * 3, "tab\t", "\ufeffabc", "\ufeff", "a\ufeffb", "\u200f\u0301x", "\x7f\x80\xff", "\ud7ff\ue000"]
 F64 = [0.0, -0.0, 1.5, -2.25, float("inf"), float("-inf"), 1e308, 5e-324, 3.141592653589793]
 F64_BITS = ["000000000000f87f", "010000000000f07f", "010000000000f8ff"]  # NaNs with payloads
 F32 = [0.0, -0.0, 1.5, float("inf"), float("-inf"), 3.4028234663852886e38, 1.401298464324817e-45]
@@ -217,11 +217,11 @@ def from_impl(w, t, v):
                 raise Uncanonical("%r is not an Offset" % (v,))
             return {"offset": [{"uuid": _ref_int(w, v.element_id)}, v.displacement]}
         if n == "sequence":
-            if not isinstance(v, (list, tuple)):
+            if not isinstance(v, (list, tuple, bytes, bytearray)):
                 raise Uncanonical("%r is not a sequence" % (v,))
             return [from_impl(w, subs[0], x) for x in v]
         if n == "set":
-            if not isinstance(v, (set, frozenset, list, tuple)):
+            if not isinstance(v, (set, frozenset, list, tuple, bytes, bytearray)):
                 raise Uncanonical("%r is not a set" % (v,))
             d = {}
             for x in v:
